@@ -35,12 +35,17 @@ func Writer() io.Writer                                  { return io.Discard }
 
 func out(s string) {
 	if w := simrt.W(); w != nil {
+		// a scheduling point: a task woken natively by a channel hand-off must not record anything before the
+		// scheduler has released it, otherwise the event order would depend on the Go runtime
+		simrt.Yield("log")
 		w.AddLog(s)
+		w.Emit(simrt.Event{Kind: simrt.EvLog, Note: s})
 	}
 }
 
 func stop(s string) {
 	if w := simrt.W(); w != nil {
+		simrt.Yield("log")
 		w.ProcessStopped(s)
 		panic(simrt.StopPanic{Msg: s})
 	}
